@@ -33,6 +33,18 @@ CHECKS = {
          "Every generated text is scanned and parsed datum by datum: no panic, spans non-empty/in bounds/on char boundaries/ordered, gaps only whitespace and comments, remaining text exactly at the first token after the datum (reference extent), loop visits each datum once. Every token-boundary prefix of every generated well-formed datum (with and without a whitespace/comment trailer) must be Incomplete and the complete datum must not. Exploration: holds on everything generated (one recorded known finding), nothing beyond.",
          "Which texts are errors is not asserted. Datum extents come from the harness' parser over the scanner's token types; for well-formed texts cut points and expected remaining offsets are the generator's own. A hang would be attributed by an in-worker watchdog and counts as a violation.",
          "DESIGN.md section 4, C11"),
+ "C08": ("boundary-value grid + proptest-driven palette operands in every internal representation against exact BigRational arithmetic (reference model), plus a metamorphic relation (same mathematical operands, different representation => same answer)",
+         "Every pair of ~100 boundary values (0, +-1, +-2, within 2 of +-2^31/2^32/2^53/2^63/2^64, edge rationals) under + - * / quotient remainder modulo, every boundary value under abs floor ceiling truncate numerator denominator and under expt with 10 exponents, each in every combination of representations (fixnum, bignum also for small values, n/1, n/d), plus 16 x 25k (quick) / 16 x 400k (thorough) random palette cases (random 32..256-bit integers, reduced rationals, results landing on a boundary, + and * on 2..5 operands). Exploration: holds on everything generated except the listed known findings, nothing beyond.",
+         "Trusts num's BigInt/BigRational. 'Representable' is marwood's documented exact model (any integer; n/d with 32-bit parts). Only the checked build (overflow panics) is exercised; panics and wrong exact values are one failure kind. The 41 known-finding classes are tolerated by input class, so another defect inside such a class with the same failure kind would be masked.",
+         "DESIGN.md section 4, C08"),
+ "C09": ("boundary-value grid + proptest-driven pairs/triples/lists in every internal representation against exact comparison in BigRational with exactly converted doubles (reference model); self-consistency relations for transitivity and variadic forms",
+         "Every unordered pair of ~110 boundary exact values, each against its five neighbouring doubles and 16 special doubles (+-0.0, subnormals, +-2^53, +-2^63, +-max, +-inf), in every representation combination, under < = > <= >= (both argument orders), min, max; plus 16 x 40k (quick) / 16 x 600k (thorough) random pairs, triples (transitivity, variadic, min/max), lists of 2..6 (variadic = conjunction over adjacent pairs) and sign predicates. Exploration.",
+         "Trusts num's BigRational and the harness' bit-level double conversion. NaN excluded. Seven known-finding classes (by operand-pair class, all operators of a family) are tolerated; a violated transitivity in a triple with a tolerated pairwise failure is counted, not reported.",
+         "DESIGN.md section 4, C09"),
+ "C16": ("round trip (print then read) and differential (literal in program text vs string->number) over the numeric palettes and random numbers, compared by the harness' strict numeric equality",
+         "All boundary exact values in every representation at radix 2, 8, 10, 16, their neighbouring doubles and special doubles at radix 10, plus 16 x 100k (quick) / 16 x 2M (thorough) random fixnums, bignums up to 512 bits, rationals of both signs and finite doubles (by bit pattern and around the 1e10 notation switch); every printed spelling is also evaluated as a literal (#b/#o/#d/#x prefix, bare at radix 10). Exploration.",
+         "Equality is the harness' (same exactness, same value; +-0.0 identified), not the SUT's. Two known-finding classes (negative fixnums / negative rationals at radix 2, 8, 16) are tolerated.",
+         "DESIGN.md section 4, C16"),
  "C20": ("exhaustive enumeration over a lexeme alphabet + proptest-driven Unicode token soup against a reference bracket matcher",
          "Every string of <=5 (quick) / <=7 (thorough) lexemes over the 11-lexeme alphabet with every cursor position is checked against the harness' own tokenizer and partner search (finite space enumerated completely), plus random Unicode token soup with random cursors. Exploration: holds on everything enumerated/generated, nothing beyond.",
          "Trusts the harness' reference tokenizer/partner search; random texts use the SUT scanner for token spans (checked by C11).",
